@@ -109,24 +109,24 @@ Proof.
     cbn [seg_from bind]. rewrite (IH _ _ H). reflexivity.
 Qed.
 
-Lemma gitem_text k kk srcs w sels y g ts : k = sq_k ->
-  gitem_of sels srcs y = Some g -> gitem_toks (sq_ci w false false) g = Some ts ->
+Lemma gitem_text k kk srcs w b sels y g ts : k = sq_k ->
+  gitem_of sels srcs y = Some g -> gitem_toks (sq_ci w false b) g = Some ts ->
   match alias_ref_of sels y with
   | Some a => Ok (fq (or_ostr (aq (kc k)) (q (kc k))) a)
-  | None => ritem kk srcs (sq_ci w false false) y end = Ok (sflatten ts).
+  | None => ritem kk srcs (sq_ci w false b) y end = Ok (sflatten ts).
 Proof.
   intros -> G T. unfold gitem_of in G. destruct (alias_ref_of sels y) as [a|].
   - inversion G; subst. cbn [gitem_toks] in T. inversion T; subst.
     unfold sflatten. cbn [map sconcat stok_text tok_text]. rewrite sapp_nil_r. reflexivity.
   - destruct y; try discriminate. cbn [it_term option_map] in G. inversion G; subst.
     cbn [gitem_toks] in T. unfold etoks in T.
-    destruct (rtoks (sq_ci w false false) (fst (split_alias (map_tref (resolve_tref srcs) t)))) as [tk|] eqn:R; [|discriminate].
+    destruct (rtoks (sq_ci w false b) (fst (split_alias (map_tref (resolve_tref srcs) t)))) as [tk|] eqn:R; [|discriminate].
     inversion T; subst. rewrite ritem_IT, sflatten_SE. apply render_split_nowa; [reflexivity | exact R].
 Qed.
 
 Lemma flat_groups_text kk srcs w sels : forall gb gs toks,
   all_some (map (gitem_of sels srcs) gb) = Some gs ->
-  all_some (map (gitem_toks (sq_ci w false false)) gs) = Some toks ->
+  all_some (map (gitem_toks (sq_ci w false clause_subq_groupby)) gs) = Some toks ->
   seg_groups sq_k kk srcs (sq_ci w) (alias_ref_of sels) gb = Ok (map sflatten toks).
 Proof.
   induction gb as [|y gb IH]; intros gs toks H1 H2.
@@ -134,12 +134,12 @@ Proof.
   - cbn [map] in H1. apply all_some_inv in H1 as [g [gs' [Hy [H1 ->]]]].
     cbn [map] in H2. apply all_some_inv in H2 as [tk [toks' [Ht [H2 ->]]]].
     cbn [seg_groups]. change (k_gba sq_k) with true. cbv iota.
-    rewrite (gitem_text sq_k kk srcs w sels y g tk eq_refl Hy Ht). cbn [bind]. rewrite (IH _ _ H1 H2). reflexivity.
+    rewrite (gitem_text sq_k (mk_k (kc kk) (k_abs kk) true) srcs w clause_subq_groupby sels y g tk eq_refl Hy Ht). cbn [bind]. rewrite (IH _ _ H1 H2). reflexivity.
 Qed.
 
 Lemma flat_orders_text kk srcs w sels : forall ob os toks,
   all_some (map (fun od => option_map (fun g => (g, snd od)) (gitem_of sels srcs (fst od))) ob) = Some os ->
-  all_some (map (order_toks (sq_ci w false false)) os) = Some toks ->
+  all_some (map (order_toks (sq_ci w false clause_subq_orderby)) os) = Some toks ->
   seg_orders sq_k kk srcs (sq_ci w) (alias_ref_of sels) ob = Ok (map sflatten toks).
 Proof.
   induction ob as [|[y d] ob IH]; intros os toks H1 H2.
@@ -148,8 +148,8 @@ Proof.
     cbn [map] in H2. apply all_some_inv in H2 as [tk [toks' [Ht [H2 ->]]]].
     cbn [fst snd] in Hy. destruct (gitem_of sels srcs y) as [g0|] eqn:G; [|discriminate]. cbn [option_map] in Hy. inversion Hy; subst.
     unfold order_toks in Ht. cbn [fst snd] in Ht.
-    destruct (gitem_toks (sq_ci w false false) g0) as [t0|] eqn:T; [|discriminate]. cbn [option_map] in Ht. inversion Ht; subst.
-    cbn [seg_orders]. rewrite (gitem_text sq_k kk srcs w sels y g0 t0 eq_refl G T). cbn [bind]. rewrite (IH _ _ H1 H2). cbn [bind map].
+    destruct (gitem_toks (sq_ci w false clause_subq_orderby) g0) as [t0|] eqn:T; [|discriminate]. cbn [option_map] in Ht. inversion Ht; subst.
+    cbn [seg_orders]. rewrite (gitem_text sq_k kk srcs w clause_subq_orderby sels y g0 t0 eq_refl G T). cbn [bind]. rewrite (IH _ _ H1 H2). cbn [bind map].
     f_equal. f_equal. destruct d as [[|]|]; [rewrite sflatten_app | rewrite sflatten_app | reflexivity]; cbn; rewrite ?sapp_nil_r; reflexivity.
 Qed.
 
@@ -278,15 +278,17 @@ Proof.
   destruct (all_some (map (item_toks (sq_ci w true true)) (map split_alias its))) as [itoks|] eqn:T1; [|discriminate].
   destruct (all_some (map (join_toks w) js)) as [jtoks|] eqn:T3; [|discriminate].
   destruct (opt_clause KWhere (sq_ci w false true) ow) as [wtoks|] eqn:T4; [|discriminate].
-  destruct (all_some (map (gitem_toks (sq_ci w false false)) gs)) as [gtoks|] eqn:T5; [|discriminate].
-  destruct (opt_clause KHaving (sq_ci w false false) oh) as [htoks|] eqn:T6; [|discriminate].
-  destruct (all_some (map (order_toks (sq_ci w false false)) os)) as [otoks|] eqn:T7; [|discriminate].
+  destruct (all_some (map (gitem_toks (sq_ci w false clause_subq_groupby)) gs)) as [gtoks|] eqn:T5; [|discriminate].
+  destruct (opt_clause KHaving (sq_ci w false clause_subq_having) oh) as [htoks|] eqn:T6; [|discriminate].
+  destruct (all_some (map (order_toks (sq_ci w false clause_subq_orderby)) os)) as [otoks|] eqn:T7; [|discriminate].
   injection HT as <-.
   change (defaults CSQLLite (top_ctx CSQLLite)) with sq_k.
   change (fun wa_ sq_ : bool => ctx_item sq_k wa_ sq_ w) with (sq_ci w).
   change (ctx_item sq_k true true w) with (sq_ci w true true).
   change (ctx_item sq_k false true w) with (sq_ci w false true).
-  change (ctx_item sq_k false false w) with (sq_ci w false false).
+  change (ctx_item sq_k false clause_subq_having w) with (sq_ci w false clause_subq_having).
+  change (ctx_item sq_k false clause_subq_groupby w) with (sq_ci w false clause_subq_groupby).
+  change (ctx_item sq_k false clause_subq_orderby w) with (sq_ci w false clause_subq_orderby).
   set (kk := with_c sq_k (set_wn (kc sq_k) w)).
   rewrite (flat_items_text kk srcs (sq_ci w true true) (sq_ci_like _ _ _) eq_refl sels its itoks E1 T1). cbn [bind].
   rewrite (flat_from_text sq_k (sq_ci w) from fnames tabs E2). cbn [bind].
@@ -303,7 +305,7 @@ Proof.
       + exfalso. cbn [map] in E5. apply all_some_inv in E5 as [? [? [_ [_ ->]]]]. cbn [map] in T5. apply all_some_inv in T5 as [? [? [_ [_ X]]]]. discriminate.
       + rewrite sflatten_cons, sflatten_commas. reflexivity. }
   rewrite GB. cbn [bind].
-  rewrite (opt_text KHaving kk srcs (sq_ci w false false) hv oh htoks " HAVING " eq_refl eq_refl E6 T6). cbn [bind].
+  rewrite (opt_text KHaving kk srcs (sq_ci w false clause_subq_having) hv oh htoks " HAVING " eq_refl eq_refl E6 T6). cbn [bind].
   assert (OB : (match ob with [] => Ok "" | _ :: _ =>
                   os0 <- seg_orders sq_k kk srcs (sq_ci w) (alias_ref_of sels) ob ;; Ok (" ORDER BY " ++ join "," os0) end)
                = Ok (sflatten (match otoks with [] => [] | _ :: _ => SK KOrderBy :: commas otoks end))).
